@@ -69,7 +69,7 @@ size_t layout_off(int bufkind, long long m, int es) {
     case 1: return (size_t)(m * 2 * es);
     case 3: return (size_t)((m / 2 * 5 + m % 2) * es);
     case 4: return (size_t)(m * 3 * es);
-    case 5: return (size_t)((m + 2) * es);
+    case 5: case 6: case 7: return (size_t)((m + 2) * es);
     default: return (size_t)(m * es);
     }
 }
@@ -80,7 +80,7 @@ std::shared_ptr<UserBuf> make_buf(const Access &a, long long n) {
     int kind = a.flexible ? a.bufkind : 0;
     long long span = ub->span; int es = ub->esize;
     size_t total = span ? layout_off(kind, span - 1, es) + es : 0;
-    if (kind == 5) total = (size_t)((span + 3) * es);
+    if (kind >= 5) total = (size_t)((span + 3) * es);
     ub->mem.assign(ub->lead * 2 + total + 16, 0xA5);
     ub->pos.resize((size_t)n);
     for (long long k = 0; k < n; k++) ub->pos[(size_t)k] = layout_off(kind, mi[(size_t)k], es);
@@ -98,6 +98,10 @@ std::shared_ptr<UserBuf> make_buf(const Access &a, long long n) {
         case 4: MPI_Type_create_resized(basic, 0, 3 * es, &ub->btype); ub->bufcount = span; ub->own_type = true; break;
         case 5: { int sz = (int)span + 3, sub = (int)span, st = 2; if (span == 0) { ub->btype = basic; ub->bufcount = 0; break; }
                   MPI_Type_create_subarray(1, &sz, &sub, &st, MPI_ORDER_C, basic, &ub->btype); ub->bufcount = 1; ub->own_type = true; break; }
+        case 6: { if (span == 0) { ub->btype = basic; ub->bufcount = 0; break; } int dp = 2;   // ONE block with a non-zero displacement (contiguous data that does not start at the buffer address)
+                  MPI_Type_create_indexed_block(1, (int)span, &dp, basic, &ub->btype); ub->bufcount = 1; ub->own_type = true; break; }
+        case 7: { if (span == 0) { ub->btype = basic; ub->bufcount = 0; break; } int bl = (int)span; MPI_Aint dp = 2 * es;
+                  MPI_Type_create_hindexed(1, &bl, &dp, basic, &ub->btype); ub->bufcount = 1; ub->own_type = true; break; }
         default: break;
         }
         if (ub->own_type) MPI_Type_commit(&ub->btype);
@@ -536,7 +540,7 @@ void Exec::do_post(Op &op, int opi) {
     std::shared_ptr<UserBuf> ub; int req = NC_REQ_NULL;
     int rc = issue(op, opi, a, kind, ncid, ub, &req);
     rc_check(op, opi, rc, a.exp_rc, a.rc_any);
-    if (rc != NC_NOERR || a.reqslot < 0) { free_buf(*ub); return; }
+    if ((rc != NC_NOERR && !(rc == NC_ERANGE && a.exp_rc == NC_ERANGE)) || a.reqslot < 0) { free_buf(*ub); return; }   // (NC_ERANGE is not fatal: the request is posted)
     auto &tab = me.reqs[op.file]; if ((int)tab.size() <= a.reqslot) tab.resize(a.reqslot + 1);
     PendingReq q; q.live = true; q.kind = kind; q.reqid = req; q.ub = ub; q.acc = &a; q.var = op.var; q.opidx = opi; q.file = op.file;
     if (kind == K_BPUT) { // data is captured at posting time: the caller may reuse the buffer at once
@@ -551,9 +555,9 @@ void Exec::do_wait(Op &op, int opi, bool cancel) {
     auto &tab = me.reqs[op.file];
     std::vector<int> ids, st; int num = 0; int *idp = nullptr, *stp = nullptr;
     if (!w.active) { num = 0; }
-    else if (w.mode == 0) {
+    else if (w.mode == 0 || w.mode == 4) {
         for (int s : w.slots) { if (s == -1) ids.push_back(NC_REQ_NULL); else if (s == -2) ids.push_back(0x7ffffff0); else ids.push_back(s < (int)tab.size() && tab[s].live ? tab[s].reqid : NC_REQ_NULL); }
-        num = (int)ids.size(); st.assign(num, 12345); idp = ids.data(); stp = st.data();
+        num = (int)ids.size(); st.assign(num, 12345); idp = ids.data(); stp = w.nostatus ? nullptr : st.data();
     } else num = w.mode == 1 ? NC_REQ_ALL : w.mode == 2 ? NC_GET_REQ_ALL : NC_PUT_REQ_ALL;
     sim::set_in_lib(true);
     int rc = cancel ? ncmpi_cancel(ncid, num, idp, stp) : op.coll ? ncmpi_wait_all(ncid, num, idp, stp) : ncmpi_wait(ncid, num, idp, stp);
@@ -564,11 +568,11 @@ void Exec::do_wait(Op &op, int opi, bool cancel) {
     if (!w.active) return;
     // which slots completed
     std::vector<int> done;
-    if (w.mode == 0) { for (int s : w.slots) if (s >= 0 && s < (int)tab.size() && tab[s].live) done.push_back(s); }
+    if (w.mode == 0 || w.mode == 4) { for (int s : w.slots) if (s >= 0 && s < (int)tab.size() && tab[s].live) done.push_back(s); }
     else for (int s = 0; s < (int)tab.size(); s++) if (tab[s].live && (w.mode == 1 || (w.mode == 2 && tab[s].kind == K_IGET) || (w.mode == 3 && tab[s].kind != K_IGET))) done.push_back(s);
-    if (w.mode == 0 && c.o.check_rc) {
+    if ((w.mode == 0 || w.mode == 4) && c.o.check_rc) {
         for (size_t i = 0; i < w.slots.size(); i++) {
-            if (i < w.exp_status.size() && st[i] != w.exp_status[i]) fail("req-status", opi, "status[" + std::to_string(i) + "] = " + ncmpi_strerrno(st[i]) + " expected " + ncmpi_strerrno(w.exp_status[i]));
+            if (!w.nostatus && i < w.exp_status.size() && st[i] != w.exp_status[i] && !(w.exp_status[i] == 12346 && (st[i] == NC_NOERR || st[i] == NC_ERANGE))) fail("req-status", opi, "status[" + std::to_string(i) + "] = " + ncmpi_strerrno(st[i]) + " expected " + ncmpi_strerrno(w.exp_status[i]));
             int s = w.slots[i];
             if (s >= 0 && s < (int)tab.size() && tab[s].live && ids[i] != NC_REQ_NULL) fail("req-id-not-reset", opi, "request id at position " + std::to_string(i) + " was not reset to NC_REQ_NULL");
         }
